@@ -58,6 +58,7 @@ type RunResult struct {
 	NonTrivial bool           `json:"nontrivial"`
 	Sig        string         `json:"sig"` // behaviour signature (for distinct counting)
 	Sample     any            `json:"sample,omitempty"`
+	TwinLog    []string       `json:"twin_log,omitempty"`
 	Trace      []string       `json:"trace,omitempty"`
 	Panics     []string       `json:"panics,omitempty"`
 	Blocked    []string       `json:"blocked,omitempty"`
@@ -94,6 +95,7 @@ type Ctx struct {
 	invariants []func() *Violation
 	finals     []func()
 	harnessErr string
+	twinLog    []string
 }
 
 // Ev records an observation (also hashed into the event log).
@@ -173,14 +175,82 @@ type Scenario struct {
 	Setup func(x *Ctx)
 	// PanicIsViolation: a panic in library code violates this property.
 	PanicIsViolation bool
+	// Twin: the scenario is executed twice with identical choices (variant ""
+	// and variant "fmt") and the two observation logs must be equal (C15).
+	Twin bool
 }
 
 var scenarios = map[string]*Scenario{}
 
 func register(sc *Scenario) { scenarios[sc.Prop] = sc }
 
-// Execute runs one simulation in a fresh bubble.
-func Execute(t *testing.T, spec RunSpec) (res RunResult) {
+// Execute runs one simulation (for twin scenarios: the canonical run and, with
+// the very same choices, the re-formatted run; their logs must be equal).
+func Execute(t *testing.T, spec RunSpec) RunResult {
+	sc := scenarios[spec.Prop]
+	if sc == nil || !sc.Twin || spec.Variant == "fmt" {
+		return execute1(t, spec)
+	}
+	a := execute1(t, spec)
+	if a.Outcome != "ok" {
+		return a
+	}
+	s2 := spec
+	s2.Variant = "fmt"
+	s2.Replay = a.Tape
+	if s2.Replay == nil {
+		s2.Replay = []int{}
+	}
+	s2.KeepTrace = false
+	b := execute1(t, s2)
+	if b.Outcome == "abandoned" {
+		a.Outcome, a.HarnessErr = "abandoned", "twin run: "+b.HarnessErr
+		return a
+	}
+	if d := diffLogs(a.TwinLog, b.TwinLog); d != "" {
+		a.Outcome = "violation"
+		a.Violations = append(a.Violations, Violation{Prop: spec.Prop, Clause: "formatting-changes-behaviour", Signature: "formatting-changes-behaviour:" + twinDiscr(a.TwinLog, b.TwinLog), Detail: d, Step: a.Steps})
+		if m, ok := a.Sample.(map[string]any); ok {
+			if mb, ok := b.Sample.(map[string]any); ok {
+				m["spellings_used"] = mb["spellings_used"]
+			}
+		}
+	}
+	a.TwinLog = nil
+	return a
+}
+
+func diffLogs(a, b []string) string {
+	for i := 0; i < len(a) || i < len(b); i++ {
+		var la, lb string
+		if i < len(a) {
+			la = a[i]
+		}
+		if i < len(b) {
+			lb = b[i]
+		}
+		if la != lb {
+			return fmt.Sprintf("same scenario, same schedule: with canonical SKIs the observation #%d is %q, with re-formatted SKIs it is %q", i, la, lb)
+		}
+	}
+	return ""
+}
+
+// twinDiscr names the operation after which the logs first differ.
+func twinDiscr(a, b []string) string {
+	last := "setup"
+	for i := 0; i < len(a) && i < len(b); i++ {
+		if a[i] != b[i] {
+			break
+		}
+		if strings.HasPrefix(a[i], "op: ") {
+			last = a[i][4:]
+		}
+	}
+	return "after-" + last
+}
+
+func execute1(t *testing.T, spec RunSpec) (res RunResult) {
 	res.Spec = spec
 	sc := scenarios[spec.Prop]
 	if sc == nil {
@@ -277,6 +347,7 @@ func runInBubble(t *testing.T, sc *Scenario, spec RunSpec, res *RunResult) {
 	res.Probes = x.probes
 	res.NonTrivial = x.nonTrivial
 	res.Sample = x.sample
+	res.TwinLog = x.twinLog
 	res.HarnessErr = x.harnessErr
 	res.Blocked = s.Blocked()
 	if spec.KeepTrace {
